@@ -123,6 +123,9 @@ impl Future for Point {
             self.asked = true;
             let label = self.label;
             if with(|c| c.at_point(label, cx.waker())).unwrap_or(false) {
+                // wake the innermost waker: combinators such as FuturesUnordered poll a child
+                // again only if the child's own waker was notified
+                cx.waker().wake_by_ref();
                 return Poll::Pending;
             }
         }
